@@ -192,12 +192,14 @@ def run(ctx):
         i, sc = ic
         tag = f"v{os.getpid() % 10000}n{i}"
         ob = run_scenario(sc, base + i * 40, tag, deadline, ctx.scratch)
-        if ob["outcome"] == "error" and str(ob.get("what", "")).startswith("TypeError:<class 'cascade.executor.msg."):
-            # the Bridge constructor met something else than a registration: an executor could not even start (a port of its
+        if ob["outcome"] != "ok" and ob.get("phase") == "startup":
+            # the run ended or stalled before every executor had registered: an executor could not even start (a port of its
             # range was taken by another process of the machine). Faults are injected inside task bodies, i.e. after
             # registration, so this is never the scenario's doing: run it once more on another port range.
             ob2 = run_scenario(sc, base + (len(cases) + i) * 40, tag + "r", deadline, ctx.scratch)
             ob2["rerun"] = "startup"
+            if ob2["outcome"] != "ok" and ob2.get("phase") == "startup":
+                raise MachineryError(f"real cluster of scenario {sc} could not be started twice: {ob2.get('stderr_tail', '')[-400:]}")
             return ob2
         if ob["outcome"] == "hang" and not ob.get("in_recv_events", False):
             # a miss that is not the controller waiting in recv_events is re-run once (machine load)
